@@ -479,7 +479,7 @@ func c15socketCase(t *testing.T, r *rt.Run, c *rt.Case, variant int) {
 			read := func(want byte) *snref.Pkt {
 				buf := make([]byte, 2048)
 				for k := 0; k < 6; k++ {
-					conn.SetReadDeadline(time.Now().Add(time.Second))
+					conn.SetReadDeadline(time.Now().Add(5 * time.Second)) // generous: a loaded machine is not a verdict
 					n, err := conn.Read(buf)
 					if err != nil {
 						return nil
